@@ -12,8 +12,8 @@
    code before them is UV.C09.Legacy).  Memory is not a heap: the argument
    buffer of one frame is the sequence of bytes stored so far ([done] up to the write pointer and
    [ahead] beyond it) over a background of [fill] bytes; [hi] is one past the highest argbuf
-   offset stored to.  The memory-region cache is an oracle: an address is readable iff it is the
-   start of one of the C strings / 8-byte words listed in the inputs.
+   offset stored to.  The memory-region cache is a set of half-open ranges (lookup_str): an address is readable iff it lies in the
+   range of one of the C strings / 8-byte words listed in the inputs.
 
    Not modelled: the decimal rendering of floating point values (floats are carried as bits),
    x87 return values (retval/f80), enum names, the 1024-byte limit of replay's text buffer. *)
@@ -86,8 +86,18 @@ Record inputs := {
 Fixpoint assoc {B} (a : N) (l : list (N * B)) : option B :=
   match l with [] => None | (k, v) :: r => if k =? a then Some v else assoc a r end.
 (* check_mem_region: the region cache, as an oracle on the addresses the inputs name *)
+(* check_mem_region / find_mem_region: the readable mappings are half-open ranges [start, end).  The ranges the model
+   knows are the declared objects themselves: a C string at a with n bytes before its NUL is the readable range
+   [a, a + n + 1) (for the harness's page that ends in front of a PROT_NONE page this is the whole mapping), a word at a
+   the range [a, a + 8).  A pointer is dereferenced only if it lies INSIDE such a range; a pointer equal to the end of
+   a range (one past the NUL) is not readable. *)
+Fixpoint lookup_str (l : list (N * list N)) (a : N) : option (list N) :=
+  match l with
+  | [] => None
+  | (k, v) :: r => if (k <=? a) && (a <? k + lenN v + 1) then Some (dropN (a - k) v) else lookup_str r a
+  end.
 Definition readable (inp : inputs) (a : N) : bool :=
-  match assoc a (strs inp) with Some _ => true | None =>
+  match lookup_str (strs inp) a with Some _ => true | None =>
   match assoc a (wrds inp) with Some _ => true | None => false end end.
 
 Definition nthN (l : list N) (i : N) : N := nth (N.to_nat i) l 0.
@@ -251,7 +261,7 @@ Definition step (fill : N) (inp : inputs) (is_ret : bool) (st : mst) (s : spec) 
           else emit fill st val ([4; 0] ++ null_str) (ALIGN (4 + 2) 4)
         else
           let src := if readable inp p
-                     then match assoc p (strs inp) with Some c => c ++ [0] | None => [0] end
+                     then match lookup_str (strs inp) p with Some c => c ++ [0] | None => [0] end
                      else bad_ptr_text p ++ [0] in
           let bound := (MAX_SIZE + U32 - m_total st mod U32) mod U32 in
           let '(dst, len) := copy_loop src 0 bound [] 0 in
@@ -261,11 +271,46 @@ Definition step (fill : N) (inp : inputs) (is_ret : bool) (st : mst) (s : spec) 
       else emit fill st val (takeN (ALIGN (s_size s) 4) val) (ALIGN (s_size s) 4)
   end.
 
+(* the pointers one step dereferences (str[0] and what follows; the std::string object): the same guards as [step] *)
+Definition step_derefs (inp : inputs) (is_ret : bool) (st : mst) (s : spec) : list N :=
+  if m_stop st then [] else
+  if negb (Bool.eqb is_ret (s_idx s =? 0)) then [] else
+  let structp := fmt_eqb (s_fmt s) FStruct in
+  if structp && (MAX_SIZE <? m_total st + s_size s) then [] else
+  let fetched : option (list N) :=
+    if is_ret then get_retval inp s (m_val st)
+    else if structp then Some (snd (get_struct_arg inp s (m_val st)))
+    else Some (get_arg inp s (m_val st)) in
+  match fetched with
+  | None => []
+  | Some val =>
+      if is_strfmt (s_fmt s) then
+        if MAX_SIZE <? m_total st + 4 then [] else
+        let p0 := of_le (takeN 8 val) in
+        let obj := match s_fmt s with
+                   | FStdStr => match assoc p0 (wrds inp) with Some _ => [p0] | None => [] end
+                   | _ => [] end in
+        let p := match s_fmt s with
+                 | FStdStr => match assoc p0 (wrds inp) with Some w => w | None => p0 end
+                 | _ => p0 end in
+        obj ++ (if p =? 0 then [] else if readable inp p then [p] else [])
+      else []
+  end.
+
 Definition mst0 : mst :=
   {| m_val := val0; m_total := 0; m_hi := 0; m_done := []; m_ahead := []; m_stop := false; m_unmodelled := false |}.
 
 Definition run (fill : N) (inp : inputs) (is_ret : bool) (specs : list spec) : mst :=
   fold_left (step fill inp is_ret) specs mst0.
+
+Fixpoint derefs_from (fill : N) (inp : inputs) (is_ret : bool) (specs : list spec) (st : mst) : list N :=
+  match specs with
+  | [] => []
+  | s :: r => step_derefs inp is_ret st s ++ derefs_from fill inp is_ret r (step fill inp is_ret st s)
+  end.
+(* every pointer save_to_argbuf dereferences while capturing the arguments / the return value of one call *)
+Definition run_derefs (fill : N) (inp : inputs) (is_ret : bool) (specs : list spec) : list N :=
+  derefs_from fill inp is_ret specs mst0.
 
 (* save_to_argbuf's return value: None = -1U *)
 Definition result (st : mst) : option N := if MAX_SIZE <? m_total st then None else Some (m_total st).
@@ -920,7 +965,7 @@ Definition judge_of (c : call) (o : observation) (aargs aret : list aval) : judg
 Definition Sp (idx : N) (f : fmt) (size : N) (t : atype) (u : N) : spec :=
   {| s_idx := idx; s_fmt := f; s_size := size; s_type := t; s_u := Z.of_N u; s_regs := []; s_name := [] |}.
 Definition AStrAt (inp : inputs) (a : N) : aval :=       (* the string the inputs hold at address a *)
-  match assoc a (strs inp) with Some s => AStr s | None => ABad a end.
+  match lookup_str (strs inp) a with Some s => AStr s | None => ABad a end.
 (* the word the caller placed in register k (0 = rdi) / stack slot k (1 = first) / retval[k] *)
 Definition ARegAt (inp : inputs) (k : N) : aval := AInt (nthN (regs inp) k).
 Definition AStkAt (inp : inputs) (k : N) : aval := AInt (nthN (stk inp) (k - 1)).
